@@ -8,6 +8,7 @@
   Bug-for-bug; Go panics on the caller goroutine are `crashed`.
 -/
 import AmVerif.Model.Resolver
+import AmVerif.Model.Subs
 namespace Am
 
 /-! ### handler names, oracle -/
@@ -33,10 +34,26 @@ structure MutReq where
   kind : MutKind
   states : S
   hasArgs : Bool := false
+  /-- the args carry `x: 1` (matched by `WhenArgs`) -/
+  hasX : Bool := false
+deriving Repr, DecidableEq, Inhabited
+
+/-- a subscription call (made by the user between transitions or by a handler). -/
+inductive SubReq
+  | when (neg : Bool) (states : S) (ctx : Option Nat)
+  | time (states : S) (times : List Nat) (ctx : Option Nat)
+  | ticks (state n : Nat) (ctx : Option Nat)
+  | next (state : Nat) (ctx : Option Nat)
+  | query (state minTick : Nat) (ctx : Option Nat)
+  | args (state : Nat) (needsX : Bool) (ctx : Option Nat)
+  | queue (tick : Nat)
+  | queueEnds
+  | stateCtx (state : Nat)
 deriving Repr, DecidableEq, Inhabited
 
 structure Behaviour where
   muts : List MutReq := []
+  subs : List SubReq := []
   act : Action := .ret true
 deriving Repr, DecidableEq, Inhabited
 
@@ -52,6 +69,7 @@ structure Mut where
   isAuto : Bool := false
   isCheck : Bool := false
   hasArgs : Bool := false
+  hasX : Bool := false
   /-- `QueueTick`; 0 for prepended mutations. -/
   qtick : Nat := 0
   /-- prepended `Exception` produced by `recoverToErr` (for the trace only). -/
@@ -75,6 +93,9 @@ inductive Ev
   | errInternal
   /-- a mutation call made from inside a handler: queue length seen, result -/
   | nested (r : MutReq) (qlen : Nat) (res : Res)
+  /-- a subscription made from inside a handler and the channel / context id it got
+      (`none` = the shared closed channel) -/
+  | subbed (r : SubReq) (out : Option Nat)
 deriving Repr, DecidableEq, Inhabited
 
 structure Mach where
@@ -100,6 +121,8 @@ structure Mach where
   inTx : Bool := false
   /-- a Go panic escaped on the caller goroutine -/
   crashed : Bool := false
+  subs : Subs := {}
+  disposed : Bool := false
   log : List Ev := []
 deriving Repr, Inhabited
 
@@ -147,6 +170,9 @@ structure Tx where
   latestTo : ToState := .none
   latestIsEnter : Bool := false
   latestIsFinal : Bool := false
+  /-- `cacheActivated` / `cacheDeactivated` (for the subscription manager) -/
+  activated : S := []
+  deactivated : S := []
 deriving Repr, Inhabited
 
 def Mach.rctx (m : Mach) (t : Tx) : RCtx :=
@@ -201,7 +227,7 @@ def queueMutation (m : Mach) (r : MutReq) : Mach × Option Nat :=
   let multi := states.any (fun s => (m.sch.get s).multi)
   if !multi && !r.hasArgs && isDuplicate m r.kind states then (m, none) else
   let pending := m.pending + 1
-  let mu : Mut := { kind := r.kind, called := states, hasArgs := r.hasArgs,
+  let mu : Mut := { kind := r.kind, called := states, hasArgs := r.hasArgs, hasX := r.hasX,
                      qtick := pending + m.queueTick }
   let m1 := { m with queue := m.queue ++ [mu], pending := pending }
   (m1.emit (.mq mu), some mu.qtick)
@@ -234,6 +260,37 @@ def issueNested (m : Mach) (r : MutReq) : Mach × Res :=
 /-- `issueNested` plus the trace entry the harness records. -/
 def issueLogged (m : Mach) (r : MutReq) : Mach :=
   ((issueNested m r).1).emit (.nested r m.queue.length (issueNested m r).2)
+
+/-- a subscription call on the machine (the `Machine.When*` entry points). -/
+def doSub (m : Mach) (r : SubReq) : Mach × Option Nat :=
+  let isAct := fun i => m.is [i]
+  let wrap := fun (p : Subs × Option Nat) => ({ m with subs := p.1 }, p.2)
+  if m.disposed then
+    match r with
+    | .stateCtx _ => (m, none)
+    | _ => (m, none)
+  else
+  match r with
+  | .when neg states ctx => wrap (m.subs.subWhen neg isAct (uniq states) ctx)
+  | .time states times ctx => wrap (m.subs.subTime m.clock states times ctx)
+  | .ticks st n ctx => wrap (m.subs.subTime m.clock [st] [n + m.tick st] ctx)
+  | .next st ctx =>
+    let n := if m.tick st % 2 == 1 then 2 else 1
+    wrap (m.subs.subTime m.clock [st] [n + m.tick st] ctx)
+  | .query st mt ctx => wrap (m.subs.subQuery st mt ctx)
+  | .args st nx ctx => wrap (m.subs.subArgs st nx ctx)
+  | .queue tick => if m.queueTick ≥ tick then (m, none) else wrap (m.subs.subQueue tick)
+  | .queueEnds => if !m.inTx then (m, none) else wrap m.subs.subQueueEnds
+  | .stateCtx st =>
+    let p := m.subs.subStateCtx st
+    ({ m with subs := p.1 }, some p.2)
+
+/-- `doSub` plus the trace entry the harness records. -/
+def subLogged (m : Mach) (r : SubReq) : Mach :=
+  ((doSub m r).1).emit (.subbed r (doSub m r).2)
+
+/-- release the given channels. -/
+def Mach.closeCh (m : Mach) (ids : List Nat) : Mach := { m with subs := m.subs.close ids }
 
 /-! ### calling handlers -/
 
@@ -272,6 +329,18 @@ structure HOut where
   res : Bool          -- true = Executed, false = Canceled
   panicked : Bool := false
 
+/-- the handler is entered (counter, trace) and issues its mutations and
+    subscriptions. -/
+def handlerBody (m : Mach) (b : Nat) (name : HName) (beh : Behaviour) : Mach :=
+  beh.subs.foldl (fun mm r => subLogged mm r)
+    (beh.muts.foldl (fun mm r => issueLogged mm r) ((bumpCount m (b, name)).emit (.h b name m.active)))
+
+/-- the tail of `processHandlers`: `ProcessWhenArgs(e)`. -/
+def whenArgsStage (m : Mach) (t : Tx) (name : HName) : Mach :=
+  let st := match name with | .state s => some s | _ => none
+  let p := m.subs.processArgs st t.mu.hasX
+  { m with subs := p.1.close p.2 }
+
 /-- `HandlersDetach(b)`. -/
 def markDetached (m : Mach) (d : Nat) : Mach := { m with detached := d :: m.detached }
 
@@ -280,7 +349,7 @@ def markDetached (m : Mach) (d : Nat) : Mach := { m with detached := d :: m.deta
     binding affects later events only. -/
 def processHandlers (orc : Oracle) (name : HName) :
     List Nat → Mach → Tx → Bool → Mach × Tx × HOut
-  | [], m, t, pk => (m, t, { res := true, panicked := pk })
+  | [], m, t, pk => (whenArgsStage m t name, t, { res := true, panicked := pk })
   | b :: rest, m, t, pk =>
     let k := (b, name)
     match orc b name (getCount m k) with
@@ -293,8 +362,7 @@ def processHandlers (orc : Oracle) (name : HName) :
         if name.isFinalName then processHandlers orc name rest m t pk
         else (m, t, { res := false, panicked := pk })
       else
-      let m1 := (bumpCount m k).emit (.h b name m.active)
-      let m2 := beh.muts.foldl (fun mm r => issueLogged mm r) m1
+      let m2 := handlerBody m b name beh
       match beh.act with
       | .ret ok =>
         if name.isFinalName || ok then processHandlers orc name rest m2 t pk
@@ -471,13 +539,26 @@ def afterFinals (orc : Oracle) (m4 : Mach) (t4 : Tx) (r4 : Bool) : Mach × Tx ×
   if !p6.2.2 then finish p6.1 { p6.2.1 with accepted := false } false
   else finish (autoStage p6.1 p6.2.1 changed) p6.2.1 true
 
+/-- `setActiveStates` on the target, the activated/deactivated caches, state
+    contexts, the corrected `TimeAfter` and the `TransitionFinals` tracers. -/
+def applyTarget (m1 : Mach) (t2 : Tx) : Mach × Tx :=
+  let m2a := applyActive m1 t2.mu.called t2.target
+  let act := if t2.mu.isAuto then diff m2a.active t2.before else t2.enters
+  let deact := if t2.mu.isAuto then diff t2.before m2a.active else t2.exits
+  let m2 : Mach := { m2a with subs := m2a.subs.processStateCtx act deact }
+  let t3 : Tx := { t2 with timeAfter := m2.clock, activated := act, deactivated := deact }
+  (m2.emit (.tFinals t3.timeAfter m2.active), t3)
+
+/-- the final handlers run when handlers are bound or a `WhenArgs` waits. -/
+def runFinals (orc : Oracle) (m3 : Mach) (t3 : Tx) : Mach × Tx × Bool :=
+  if m3.hasHandlers || !m3.subs.args.isEmpty then
+    emitFinals orc t3.enters (t3.exits ++ t3.enters) m3 t3
+  else (m3, t3, true)
+
 /-- the accepted branch of `emitEvents`: apply the target, run the finals. -/
 def applyPhase (orc : Oracle) (m1 : Mach) (t2 : Tx) : Mach × Tx × Res :=
-  let m2 := applyActive m1 t2.mu.called t2.target
-  let t3 := { t2 with timeAfter := m2.clock }
-  let m3 := m2.emit (.tFinals t3.timeAfter m2.active)
-  let p4 := if m3.hasHandlers then emitFinals orc t3.enters (t3.exits ++ t3.enters) m3 t3
-            else (m3, t3, true)
+  let p := applyTarget m1 t2
+  let p4 := runFinals orc p.1 p.2
   afterFinals orc p4.1 p4.2.1 p4.2.2
 
 /-- `emitEvents`. -/
@@ -500,11 +581,27 @@ def shiftQueue (m : Mach) (mu : Mut) (rest : List Mut) : Mach :=
   if mu.qtick > 0 then
     { m1 with pending := m1.pending - 1, queueTick := m1.queueTick + 1 } else m1
 
-/-- one iteration of the drain loop: shift, `newTransition`, `emitEvents`. -/
+/-- `processSubscriptions(t)`. -/
+def processSubscriptions (m : Mach) (t : Tx) : Mach :=
+  let p1 := m.subs.processWhen t.activated t.deactivated
+  let p2 := p1.1.processTime t.timeBefore m.clock
+  let p3 := p2.1.processQueueSubs m.queueTick
+  let p4 := p3.1.processQuery m.clock
+  { m with subs := p4.1.close (p1.2 ++ p2.2 ++ p3.2 ++ p4.2) }
+
+/-- one iteration of the drain loop: shift, `newTransition`, `emitEvents`,
+    `processSubscriptions`. -/
 def runOne (orc : Oracle) (m : Mach) (mu : Mut) (rest : List Mut) : Mach × Res :=
   let p := newTx (shiftQueue m mu rest) mu
   let q := emitEvents orc p.1 p.2
-  (q.1, q.2.2)
+  let m' :=
+    if q.1.crashed || mu.isCheck then q.1
+    else if q.2.1.accepted then processSubscriptions q.1 q.2.1
+    else
+      -- a canceled mutation has been processed too: its `WhenQueue` waiters go
+      let p := q.1.subs.processQueueSubs q.1.queueTick
+      { q.1 with subs := p.1.close p.2 }
+  (m', q.2.2)
 
 /-- the drain loop of `processQueue`; returns the results in order. -/
 def drain (orc : Oracle) : Nat → Mach → List Res → Mach × List Res
@@ -522,12 +619,13 @@ def processQueue (orc : Oracle) (fuel : Nat) (m : Mach) : Mach × Res :=
   if m.queue.isEmpty then (m, .canceled) else
   let (m1, rets) := drain orc fuel m []
   if m1.crashed then (m1, .canceled) else
-  let m2 := { m1 with inTx := false }.emit .qEnd
+  let pe := m1.subs.processQueueEnds
+  let m2 := { m1 with inTx := false, subs := pe.1.close pe.2 }.emit .qEnd
   (m2, rets.headD .canceled)
 
 /-- user-level `Add` / `Remove` / `Set` on an idle machine. -/
 def mutate (orc : Oracle) (fuel : Nat) (m : Mach) (r : MutReq) : Mach × Res :=
-  if m.crashed then (m, .canceled) else
+  if m.crashed || m.disposed then (m, .canceled) else
   if entryCanceled m r then (m, .canceled) else
   if r.kind == .remove && m.queue.isEmpty && m.inTx &&
      !(r.states.any (fun s => m.is [s])) then (m, .executed) else
@@ -541,7 +639,7 @@ def mutate (orc : Oracle) (fuel : Nat) (m : Mach) (r : MutReq) : Mach × Res :=
 
 /-- `CanAdd` / `CanRemove`. -/
 def check (orc : Oracle) (fuel : Nat) (m : Mach) (kind : MutKind) (states : S) : Mach × Res :=
-  if m.crashed then (m, .canceled) else
+  if m.crashed || m.disposed then (m, .canceled) else
   if m.backoff then (m, .canceled) else
   let mu : Mut := { kind := kind, called := uniq states, isCheck := true, raw := states }
   processQueue orc fuel (prepend m mu)
@@ -553,8 +651,13 @@ def toggle (orc : Oracle) (fuel : Nat) (m : Mach) (states : S) : Mach × Res :=
 
 /-- `AddErr` (non-nil error). -/
 def addErr (orc : Oracle) (fuel : Nat) (m : Mach) : Mach × Res :=
-  if m.backoff || m.queue.length ≥ m.limit then (m, .canceled) else
+  if m.disposed || m.backoff || m.queue.length ≥ m.limit then (m, .canceled) else
   mutate orc fuel m { kind := .add, states := [m.sch.exc, m.sch.exc], hasArgs := true }
+
+/-- `DisposeForce` on an idle machine: every waiter is released, the queue is
+    dropped, later calls get neutral answers. -/
+def disposeMach (m : Mach) : Mach :=
+  { m with disposed := true, subs := m.subs.disposeAll, queue := [] }
 
 def Mach.init (sch : Schema) (alpha : S) : Mach :=
   { sch := sch, topo := topology sch alpha, clock := List.replicate sch.n 0 }
